@@ -14,7 +14,9 @@ import (
 // Reference clock per member: lastRefresh = time of its last JoinGroup or of its last
 // heartbeat answered NONE (a heartbeat answered REBALANCE_IN_PROGRESS tells the member
 // to rejoin and is not counted as "keeps heartbeating"; see level_note). S = the session
-// timeout it asked for, R = the rebalance timeout, I = the cleanup interval. The group
+// timeout it asked for in its LATEST JoinGroup (a member may ask for a different session
+// every time it joins; the session-change run does), R = the rebalance timeout, I = the
+// cleanup interval. The group
 // is observed after every firing of the coordinator's cleanup ticker (time T).
 //
 // Never early: a member may disappear at tick T only if
@@ -84,7 +86,8 @@ func (coordC43) CheckTick(w *coordWorld, tk *coordTick) []xstate.Violation {
 			continue // a member the reference never saw join: nothing to demand
 		}
 		age := T.Sub(m.LastRefresh)
-		if age > coordSessionTO {
+		S := m.session() // the session timeout asked for in the member's latest join
+		if age > S {
 			continue // (a)
 		}
 		lagger := l.InReb && !rejoined(id)
@@ -93,13 +96,13 @@ func (coordC43) CheckTick(w *coordWorld, tk *coordTick) []xstate.Violation {
 		}
 		switch {
 		case l.InReb && rejoined(id) && !T.Before(l.RebStart.Add(coordRebalTO)):
-			out = append(out, coordViol("rejoined-member-dropped-at-rebalance-deadline", "tick at +%.1fs: %s had rejoined generation %d (last refresh %.1fs ago, session %.0fs) but was removed", T.Sub(w.coordStart).Seconds(), w.name(id), tk.Pre.Gen, age.Seconds(), coordSessionTO.Seconds()))
+			out = append(out, coordViol("rejoined-member-dropped-at-rebalance-deadline", "tick at +%.1fs: %s had rejoined generation %d (last refresh %.1fs ago, session %.0fs) but was removed", T.Sub(w.coordStart).Seconds(), w.name(id), tk.Pre.Gen, age.Seconds(), S.Seconds()))
 		case lagger:
-			out = append(out, coordViol("lagger-dropped-before-rebalance-timeout", "tick at +%.1fs: %s removed %.1fs after the rebalance began (timeout %.0fs), last refresh %.1fs ago (session %.0fs)", T.Sub(w.coordStart).Seconds(), w.name(id), T.Sub(l.RebStart).Seconds(), coordRebalTO.Seconds(), age.Seconds(), coordSessionTO.Seconds()))
-		case age == coordSessionTO:
-			out = append(out, coordViol("removed-at-exact-session-boundary", "tick at +%.1fs: %s removed exactly %.0fs after its last refresh: the session timeout (%.0fs) has not passed yet", T.Sub(w.coordStart).Seconds(), w.name(id), age.Seconds(), coordSessionTO.Seconds()))
+			out = append(out, coordViol("lagger-dropped-before-rebalance-timeout", "tick at +%.1fs: %s removed %.1fs after the rebalance began (timeout %.0fs), last refresh %.1fs ago (session %.0fs)", T.Sub(w.coordStart).Seconds(), w.name(id), T.Sub(l.RebStart).Seconds(), coordRebalTO.Seconds(), age.Seconds(), S.Seconds()))
+		case age == S:
+			out = append(out, coordViol("removed-at-exact-session-boundary", "tick at +%.1fs: %s removed exactly %.0fs after its last refresh: the session timeout (%.0fs) has not passed yet", T.Sub(w.coordStart).Seconds(), w.name(id), age.Seconds(), S.Seconds()))
 		default:
-			out = append(out, coordViol("removed-within-session", "tick at +%.1fs: %s removed %.1fs after its last join/successful heartbeat, session timeout %.0fs", T.Sub(w.coordStart).Seconds(), w.name(id), age.Seconds(), coordSessionTO.Seconds()))
+			out = append(out, coordViol("removed-within-session", "tick at +%.1fs: %s removed %.1fs after its last join/successful heartbeat, session timeout %.0fs", T.Sub(w.coordStart).Seconds(), w.name(id), age.Seconds(), S.Seconds()))
 		}
 	}
 	if removed > 0 && tk.Post.Exists && len(tk.Post.IDs) > 0 {
@@ -115,8 +118,9 @@ func (coordC43) CheckTick(w *coordWorld, tk *coordTick) []xstate.Violation {
 		if m == nil || !tk.Post.has(id) {
 			continue
 		}
-		if age := T.Sub(m.LastRefresh); age > coordSessionTO {
-			out = append(out, coordViol("expired-member-not-removed", "tick at +%.1fs: %s is still a member %.1fs after its last join/successful heartbeat (session timeout %.0fs)", T.Sub(w.coordStart).Seconds(), w.name(id), age.Seconds(), coordSessionTO.Seconds()))
+		S := m.session()
+		if age := T.Sub(m.LastRefresh); age > S {
+			out = append(out, coordViol("expired-member-not-removed", "tick at +%.1fs: %s is still a member %.1fs after its last join/successful heartbeat (session timeout %.0fs)", T.Sub(w.coordStart).Seconds(), w.name(id), age.Seconds(), S.Seconds()))
 		} else if l.InReb && !rejoined(id) && !T.Before(l.LastBump.Add(coordRebalTO)) {
 			out = append(out, coordViol("rebalance-lagger-not-dropped", "tick at +%.1fs: %s has not rejoined generation %d, %.1fs after the last join of this rebalance (rebalance timeout %.0fs), and is still a member", T.Sub(w.coordStart).Seconds(), w.name(id), tk.Pre.Gen, T.Sub(l.LastBump).Seconds(), coordRebalTO.Seconds()))
 		}
@@ -126,8 +130,8 @@ func (coordC43) CheckTick(w *coordWorld, tk *coordTick) []xstate.Violation {
 
 func TestVerifC43(t *testing.T) {
 	coordRunCheck(t, "C43", func() coordOracle { return coordC43{} },
-		"BFS over all event histories (join/rejoin/sync/heartbeat/commit/leave/failover/stale-member events and advance(d), d in {rebalance-eps, rebalance, rebalance+eps=session-eps, session, session+eps}, eps = half a cleanup interval) up to the depth bound, states merged by canonical key, every transition executed on the real GroupCoordinator whose own cleanupLoop runs on virtual time; the group is observed after every tick: no member disappears unless its session lapsed or the rebalance timeout passed without it rejoining, removals start a rebalance, and (without failover) lapsed members and rebalance laggers are gone at the first tick after the lapse. distinct = distinct (store, event, reply, state change) observations; non-trivial = error code or observable change",
-		[]string{"session 3 s, rebalance 2 s, cleanup interval 1 s of virtual time for every member",
+		"BFS over all event histories (join/rejoin/sync/heartbeat/commit/leave/failover/stale-member events and advance(d), d in {rebalance-eps, rebalance, rebalance+eps=session-eps, session, session+eps}, eps = half a cleanup interval) up to the depth bound, states merged by canonical key, plus a timing run (irregular heartbeat spacing) and a session-change run (every join/rejoin asks for session 3 s or 5 s, advances up to 5.5 s) on a reduced request alphabet explored to their fixpoints, every transition executed on the real GroupCoordinator whose own cleanupLoop runs on virtual time; the group is observed after every tick: no member disappears unless its session lapsed or the rebalance timeout passed without it rejoining, removals start a rebalance, and (without failover) lapsed members and rebalance laggers are gone at the first tick after the lapse. distinct = distinct (store, event, reply, state change) observations; non-trivial = error code or observable change",
+		[]string{"session 3 s, rebalance 2 s, cleanup interval 1 s of virtual time for every member; in the session-change run every join/rejoin asks for a session of 3 s or 5 s and a member is judged by the session of its latest join (any JoinGroup the coordinator answered with a member id, also one answered REBALANCE_IN_PROGRESS)",
 			"a heartbeat answered REBALANCE_IN_PROGRESS does not count as heartbeating (the coordinator does not refresh the session on it; Kafka does)",
 			"the never-late half is judged only in histories without failover: a replacement coordinator loads a group on the first request that names it and does not expire members of groups no request has touched yet, and it restarts the rebalance timeout on load"})
 }
